@@ -1,1 +1,2058 @@
-//! C10 - not built yet
+//! C10 - lexing is lossless and numeric literals are exact.
+//!
+//! Three runtime monitors over executions of the real lexer / compiler:
+//!  1. tiling monitor: `preprocess_fragment` on generated directive-free texts; token spans must tile the file,
+//!     re-emitting by span reproduces the bytes, `unlex` is the input minus splice backslashes plus the
+//!     final newline, diagnostics of texts that fail to lex point inside the file;
+//!  2. literal monitor: integer / floating spellings against the reference model in
+//!     `oracle::c10_literal` (exact integers, nearest double, narrowed once for f / h);
+//!  3. output leg: the literal inside a small program compiled to HLSL; the printed literal, re-read with the
+//!     same reference model, must denote the same number in the declared type.
+
+use crate::json::Json;
+// the reference model lives in src/oracle/c10_literal.rs; included by path so that no other file of the harness has to change
+#[path = "../oracle/c10_literal.rs"]
+mod c10_literal;
+use c10_literal::{self as lit, FloatSuffix, IntSuffix, Lit};
+use crate::par::{self, Caught};
+use crate::report::{Ctx, Report};
+use crate::rng::{hash_str, Rng};
+use crate::rs::{self, Mode, Opts, Outcome, Tgt};
+use crate::CheckDef;
+use rssl::text::tokens::Token;
+use rssl::text::{CompileErrorExt, FileName, Locate, LocateEnd, SourceManager};
+
+pub fn def() -> CheckDef {
+    CheckDef {
+        id: "C10",
+        salt: 0xC10,
+        rule: "case index i: i%16==0 -> text case, i%16==1 -> output case, otherwise literal case. \
+               TEXT: 20-300 pieces drawn from every token kind (identifiers, all keywords and reserved words, every operator / bracket, \
+               strings, int and float literals of every form incl. 1.#INF, `.x` swizzles glued to literals), separated by random blanks, tabs, \
+               line and block comments (with quotes, '#', non-ASCII, backslash-newline inside), backslash-newline splices (also inside words, \
+               numbers and operators), line endings \\n, \\r\\n or mixed, 0-2 other files registered first so the file base is not 0; never a '#' \
+               first on a logical line (directive free) and never the identifier __HLSL_VERSION; 1 text in 4 additionally gets one malformed piece \
+               (stray byte, bad float suffix, 2^64, unterminated string / comment, lone \\r) and no '#' at all after it. \
+               LITERAL: decimal / hex / octal integers of 1-25 digits (random, leading zeros, and neighbours of 2^32, 2^63, 2^64, 10^19) with each of the \
+               13 suffix spellings; floats `digits . digits e[+-]digits suffix` in every optional-part combination with <= 20 significant digits and \
+               decimal magnitude in [-330, 310], always with a digit before the point (`.5` is open known finding KF-C10-3, probed by its witness) \
+               (random digits; 17-20 digit truncations just below / above the midpoint of two adjacent doubles; the same \
+               around midpoints of adjacent floats for f / h; boundary constants), placed between a random left and right neighbour (blank, `;`, `)`, \
+               operator, comment, splice, line ending, `.x` swizzle). \
+               OUTPUT: the literal (u-suffixed values <= 2^32-1 only: larger ones are open known finding KF-C10-2, probed by its witness) in `static const T c10_v = LIT;`, `T c10_f() { return LIT; }`, \
+               `R c10_f(T c10_x) { return c10_x * LIT; }`, `static const T c10_v = LIT / 0.75;` for T in float half double int uint, optionally negated, \
+               compiled with rs::compile(Tgt::Dx, Mode::NoPipeline). \
+               evaluations = executions of preprocess_fragment / unlex / compile observed; distinct_nontrivial = distinct case texts (content hash) for \
+               which the real code returned (tokens, a diagnostic, or HLSL) and the monitor reached a verdict",
+        assumptions: &[
+            "Rust's str::parse::<f64>() is correctly rounded; cross-checked on every generated float spelling against the big-integer conversion in oracle::c10_literal (a disagreement makes the run inconclusive)",
+            "half constants are modelled as single precision values on both sides, as the property states (narrowed once to single precision for f and h)",
+            "conversions the type checker applies to a literal are taken from C / HLSL: to unsigned modulo 2^32, to float round-to-nearest-even, float to int truncation when in range; out of range conversions to signed / from float are undecidable and skipped",
+            "the harness build has debug assertions on: a lexer debug assertion that fires on an unterminated block comment hides the release behaviour of that one family (counted as skipped:panic, C08's business)",
+        ],
+        min_distinct: (200_000, 2_500_000),
+        deadline_s: (55.0, 540.0),
+        run,
+        replay,
+    }
+}
+
+const FILE_NAME: &str = "c10.rssl";
+
+// ------------------------------------------------------------------------------------------------
+// Observing the real lexer
+// ------------------------------------------------------------------------------------------------
+
+#[derive(Clone, Debug)]
+struct Tok {
+    token: Token,
+    /// raw SourceLocation values
+    start: u32,
+    end: u32,
+    /// file name + offset the SourceManager resolves the start / end location to
+    start_file: Option<(String, u32)>,
+    end_file: Option<(String, u32)>,
+}
+
+#[derive(Clone, Debug)]
+enum Lexed {
+    Tokens {
+        tokens: Vec<Tok>,
+        unlex: Result<String, Caught>,
+    },
+    LexError {
+        reason: String,
+        raw: u32,
+        file: Option<(String, u32)>,
+        rendered: Result<String, Caught>,
+    },
+    OtherError(String),
+    Panic(Caught),
+}
+
+/// Run preprocess_fragment (and unlex) on `text` after registering `pre_files` other files. Returns the base location of the file too.
+fn lex(text: &str, pre_files: &[String], report: &mut Report) -> (Lexed, u32) {
+    let mut base: u32 = 0;
+    for f in pre_files {
+        base += f.len() as u32 + 1;
+    }
+    rssl::text::verif::reset(u64::MAX);
+    report.evaluations += 1;
+    let r = par::guard(|| {
+        let mut sm = SourceManager::new();
+        for f in pre_files {
+            sm.add_fragment(f);
+        }
+        let resolve = |sm: &SourceManager, loc: rssl::text::SourceLocation| -> Option<(String, u32)> {
+            sm.get_file_offset_from_source_location(loc).map(|(fid, off)| (sm.get_file_name(fid).to_string(), off.0))
+        };
+        match rssl::preprocess::preprocess_fragment(text, FileName(FILE_NAME.to_string()), &mut sm) {
+            Ok(tokens) => {
+                let mut toks = Vec::with_capacity(tokens.len());
+                for t in &tokens {
+                    let s = t.get_location();
+                    let e = t.get_end_location();
+                    toks.push(Tok {
+                        token: t.0.clone(),
+                        start: s.get_raw(),
+                        end: e.get_raw(),
+                        start_file: resolve(&sm, s),
+                        end_file: resolve(&sm, e),
+                    });
+                }
+                let unlex = par::guard(|| rssl::preprocess::unlex(&tokens, &sm));
+                Lexed::Tokens { tokens: toks, unlex }
+            }
+            Err(rssl::preprocess::PreprocessError::LexerError(err)) => {
+                let reason = format!("{:?}", err.reason);
+                let raw = err.location.get_raw();
+                let file = resolve(&sm, err.location);
+                let whole = rssl::preprocess::PreprocessError::LexerError(err);
+                let rendered = par::guard(|| format!("{}", whole.display(&sm)));
+                Lexed::LexError { reason, raw, file, rendered }
+            }
+            Err(other) => {
+                let rendered = par::guard(|| format!("{}", other.display(&sm))).unwrap_or_else(|c| format!("<rendering panicked: {}>", c.message));
+                Lexed::OtherError(rendered)
+            }
+        }
+    });
+    match r {
+        Ok(l) => (l, base),
+        Err(c) => (Lexed::Panic(c), base),
+    }
+}
+
+fn token_kind(t: &Token) -> String {
+    let s = format!("{:?}", t);
+    s.split(|c| c == '(' || c == ' ').next().unwrap_or("").to_string()
+}
+
+/// (signature, summary) of the first violation
+type Fault = Option<(String, String)>;
+
+fn fault(sig: &str, summary: String) -> Fault {
+    Some((sig.to_string(), summary))
+}
+
+/// The tiling rules of the property, on what the lexer returned for `text` living at `base`
+fn check_tiling(text: &str, base: u32, tokens: &[Tok], unlex: &Result<String, Caught>) -> Fault {
+    let len = text.len() as u32;
+    let bytes = text.as_bytes();
+    if tokens.is_empty() {
+        if len != 0 {
+            return fault("tiling:no-tokens", format!("no tokens for a file of {} bytes", len));
+        }
+        return None;
+    }
+    let mut pos = base;
+    let mut rebuilt: Vec<u8> = Vec::with_capacity(text.len());
+    let mut unlex_model = String::with_capacity(text.len() + 1);
+    for (i, t) in tokens.iter().enumerate() {
+        if t.start == u32::MAX || t.end == u32::MAX {
+            return fault("tiling:unlocated-token", format!("token #{} {:?} has no location", i, t.token));
+        }
+        if t.start != pos {
+            let what = if i == 0 { "first token does not start at the file start" } else if t.start < pos { "token overlaps / precedes its predecessor" } else { "gap before token" };
+            return fault(
+                if i == 0 { "tiling:start" } else if t.start < pos { "tiling:order" } else { "tiling:gap" },
+                format!("{}: token #{} {:?} spans {}..{} but the previous one ended at {} (file base {})", what, i, t.token, t.start, t.end, pos, base),
+            );
+        }
+        if t.end < t.start {
+            return fault("tiling:negative-span", format!("token #{} {:?} ends before it starts ({}..{})", i, t.token, t.start, t.end));
+        }
+        if t.end > base + len {
+            return fault("tiling:outside-file", format!("token #{} {:?} spans {}..{} beyond the file end {}", i, t.token, t.start, t.end, base + len));
+        }
+        // each inside its file, as the SourceManager sees it
+        for (which, f, raw) in [("start", &t.start_file, t.start), ("end", &t.end_file, t.end)] {
+            match f {
+                Some((name, off)) if name == FILE_NAME && *off == raw - base => {}
+                other => {
+                    return fault(
+                        "tiling:wrong-file",
+                        format!("{} of token #{} {:?} (raw {}) resolves to {:?}, expected ({}, {})", which, i, t.token, raw, other, FILE_NAME, raw - base),
+                    )
+                }
+            }
+        }
+        let span = &bytes[(t.start - base) as usize..(t.end - base) as usize];
+        if span.is_empty() {
+            // only the line ending the lexer supplies at the end of a file that lacks one may be empty
+            if !(t.token == Token::Endline && t.start == base + len && i + 1 == tokens.len()) {
+                return fault("tiling:empty-token", format!("token #{} {:?} is empty at {}", i, t.token, t.start));
+            }
+            unlex_model.push('\n');
+        } else {
+            rebuilt.extend_from_slice(span);
+            let s = match std::str::from_utf8(span) {
+                Ok(s) => s,
+                Err(_) => return fault("tiling:splits-utf8", format!("token #{} {:?} span {}..{} cuts a UTF-8 sequence", i, t.token, t.start, t.end)),
+            };
+            if t.token == Token::PhysicalEndline {
+                if !s.starts_with('\\') {
+                    return fault("tiling:splice-span", format!("PhysicalEndline token #{} spans {:?}", i, s));
+                }
+                unlex_model.push_str(&s[1..]);
+            } else {
+                unlex_model.push_str(s);
+            }
+            // token payloads that are spelled in the source must be the spelled bytes
+            match &t.token {
+                Token::Id(id) if id.0 != s => return fault("tiling:payload", format!("identifier token {:?} spans {:?}", id.0, s)),
+                Token::LiteralString(v) if format!("\"{}\"", v) != s => return fault("tiling:payload", format!("string token {:?} spans {:?}", v, s)),
+                Token::ReservedWord(v) if v != s => return fault("tiling:payload", format!("reserved word token {:?} spans {:?}", v, s)),
+                _ => {}
+            }
+        }
+        pos = t.end;
+    }
+    if pos != base + len {
+        return fault("tiling:end", format!("last token ends at {} but the file ends at {}", pos, base + len));
+    }
+    if rebuilt != bytes {
+        return fault("tiling:reemit", "re-emitting the tokens by span does not reproduce the input".to_string());
+    }
+    match unlex {
+        Ok(u) => {
+            if *u != unlex_model {
+                return fault("unlex:relation", format!("unlex returned {:?}, the spans give {:?}", clip(u), clip(&unlex_model)));
+            }
+        }
+        Err(c) => return fault(&format!("unlex:panic:{}", c.signature()), format!("unlex panicked at {}: {}", c.location, c.message)),
+    }
+    None
+}
+
+fn clip(s: &str) -> String {
+    if s.len() <= 400 {
+        s.to_string()
+    } else {
+        let mut end = 400;
+        while !s.is_char_boundary(end) {
+            end -= 1;
+        }
+        format!("{}...({} bytes)", &s[..end], s.len())
+    }
+}
+
+/// Input with the backslash of every top level splice removed and the final newline supplied, derived from the text
+/// alone for texts whose splices all sit at top level or inside line comments (the generator says which are which).
+fn final_newline_needed(text: &str) -> bool {
+    if text.is_empty() {
+        return false;
+    }
+    match text.strip_suffix('\n') {
+        None => true,
+        Some(rest) => {
+            let rest = rest.strip_suffix('\r').unwrap_or(rest);
+            rest.ends_with('\\')
+        }
+    }
+}
+
+/// A diagnostic of a text that fails to lex must point inside the file
+fn check_diagnostic(text: &str, base: u32, raw: u32, file: &Option<(String, u32)>, rendered: &Result<String, Caught>, report: &mut Report) -> Fault {
+    let len = text.len() as u32;
+    if raw == u32::MAX {
+        return fault("diagnostic:no-location", "lexer error without a location".to_string());
+    }
+    if raw < base || raw > base + len {
+        return fault("diagnostic:outside-file", format!("lexer error at raw location {} outside the file [{}, {}]", raw, base, base + len));
+    }
+    match file {
+        Some((name, off)) if name == FILE_NAME && *off == raw - base => {}
+        other => return fault("diagnostic:wrong-file", format!("lexer error location {} resolves to {:?}", raw, other)),
+    }
+    let rendered = match rendered {
+        Ok(r) => r,
+        Err(c) => {
+            report.count(&format!("skipped:panic:render:{}", c.signature()));
+            return None;
+        }
+    };
+    // "<file>:<line>:<column>: error: ..."
+    let prefix = format!("{}:", FILE_NAME);
+    let Some(rest) = rendered.strip_prefix(&prefix) else {
+        return fault("diagnostic:no-position", format!("diagnostic does not start with a position in the file: {:?}", clip(rendered)));
+    };
+    let mut parts = rest.splitn(3, ':');
+    let line: Option<u32> = parts.next().and_then(|s| s.parse().ok());
+    let column: Option<u32> = parts.next().and_then(|s| s.parse().ok());
+    let (Some(line), Some(column)) = (line, column) else {
+        return fault("diagnostic:no-position", format!("cannot read line:column from {:?}", clip(rendered)));
+    };
+    let lines: Vec<&str> = text.split('\n').collect();
+    if line < 1 || line as usize > lines.len() {
+        return fault("diagnostic:line-outside", format!("diagnostic line {} but the file has {} lines", line, lines.len()));
+    }
+    let l = lines[line as usize - 1];
+    if column < 1 || column as usize > l.len() + 1 {
+        return fault("diagnostic:column-outside", format!("diagnostic column {} but line {} has {} bytes", column, line, l.len()));
+    }
+    // what the offset says (observation only: the property only asks for "inside")
+    let off = (raw - base) as usize;
+    let before = &text.as_bytes()[..off];
+    let want_line = 1 + before.iter().filter(|b| **b == b'\n').count() as u32;
+    let want_col = 1 + (off - before.iter().rposition(|b| *b == b'\n').map(|p| p + 1).unwrap_or(0)) as u32;
+    if (want_line, want_col) != (line, column) {
+        report.count("observed:diagnostic_linecol_differs_from_offset");
+    }
+    None
+}
+
+// ------------------------------------------------------------------------------------------------
+// Text generator (monitor 1)
+// ------------------------------------------------------------------------------------------------
+
+const KEYWORDS: &[&str] = &[
+    "if", "else", "for", "while", "do", "switch", "return", "break", "continue", "discard", "case", "default", "struct", "class", "enum", "typedef",
+    "cbuffer", "register", "packoffset", "namespace", "true", "false", "in", "out", "inout", "const", "volatile", "row_major", "column_major", "unorm",
+    "snorm", "extern", "static", "inline", "groupshared", "constexpr", "sizeof", "template", "typename", "decltype", "auto", "catch", "char",
+    "const_cast", "delete", "dynamic_cast", "explicit", "friend", "goto", "long", "mutable", "new", "operator", "private", "protected", "public",
+    "reinterpret_cast", "short", "signed", "static_cast", "this", "throw", "try", "union", "unsigned", "using", "virtual",
+];
+
+const WORDS: &[&str] = &[
+    "x", "y", "a", "b", "i", "n", "float", "float4", "int", "uint", "half", "double", "float4x4", "Texture2D", "SamplerState", "main", "define", "include",
+    "defined", "pragma", "once", "INF", "e5", "x1", "_", "__", "_0", "A_b_C9", "SV_Position", "vk", "rssl", "elif", "endif", "ifdef", "line", "error", "u", "f",
+    "h", "l", "L", "UL", "xyzw", "rgba", "b0", "t1", "space2", "TEXCOORD0", "min16float", "vector", "matrix", "StructuredBuffer", "ConstantBuffer",
+];
+
+const PUNCT: &[&str] = &[
+    "{", "}", "(", ")", "[", "]", "<", ">", ";", ",", "?", "+", "++", "+=", "-", "--", "-=", "/", "/=", "%", "%=", "*", "*=", "|", "||", "|=", "&", "&&",
+    "&=", "^", "^=", "=", "==", "#", "##", "@", "!", "!=", "~", ".", ":", "::", "<<", ">>", "<=", ">=", "<<=", ">>=", "->", "<>", "...",
+];
+
+#[derive(Clone, Copy, PartialEq, Eq, Debug)]
+enum Class {
+    Start,
+    Blank,
+    Word,
+    Number,
+    Punct,
+    Str,
+    Swizzle,
+}
+
+struct TextGen {
+    out: String,
+    /// the input with the backslash of every splice the lexer is to treat as a splice token removed
+    model: String,
+    line_start: bool,
+    in_line_comment: bool,
+    prev: Class,
+    /// 0 = \n, 1 = \r\n, 2 = mixed
+    eol_style: u8,
+    pieces: usize,
+    splices: usize,
+    /// set once a malformed piece has been emitted
+    no_hash: bool,
+}
+
+impl TextGen {
+    fn new(eol_style: u8) -> TextGen {
+        TextGen {
+            out: String::new(),
+            model: String::new(),
+            line_start: true,
+            in_line_comment: false,
+            prev: Class::Start,
+            eol_style,
+            pieces: 0,
+            splices: 0,
+            no_hash: false,
+        }
+    }
+    fn eol(&self, rng: &mut Rng) -> &'static str {
+        match self.eol_style {
+            0 => "\n",
+            1 => "\r\n",
+            _ => {
+                if rng.chance(1, 2) {
+                    "\n"
+                } else {
+                    "\r\n"
+                }
+            }
+        }
+    }
+    fn raw(&mut self, s: &str) {
+        if self.no_hash && s.contains('#') {
+            // after a malformed piece comments and strings may open and close elsewhere than planned: no '#' at all, so that
+            // no exposed '#' can become a directive
+            let s = s.replace('#', "@");
+            self.out.push_str(&s);
+            self.model.push_str(&s);
+            return;
+        }
+        self.out.push_str(s);
+        self.model.push_str(s);
+    }
+    fn newline(&mut self, rng: &mut Rng) {
+        let nl = self.eol(rng);
+        if self.in_line_comment {
+            // a comment whose last byte is a backslash continues on the next line
+            let continues = self.out.ends_with('\\');
+            self.raw(nl);
+            if !continues {
+                self.in_line_comment = false;
+                self.line_start = true;
+            }
+        } else {
+            self.raw(nl);
+            self.line_start = true;
+        }
+        self.prev = Class::Blank;
+    }
+    fn splice(&mut self, rng: &mut Rng) {
+        let nl = self.eol(rng);
+        self.splices += 1;
+        self.out.push('\\');
+        self.out.push_str(nl);
+        if self.in_line_comment {
+            // part of the comment token: kept as written
+            self.model.push('\\');
+        }
+        self.model.push_str(nl);
+        self.prev = Class::Blank;
+    }
+    fn blank(&mut self, rng: &mut Rng) {
+        let n = 1 + rng.below(3);
+        for _ in 0..n {
+            let c = if rng.chance(1, 4) { "\t" } else { " " };
+            self.raw(c);
+        }
+        self.prev = Class::Blank;
+    }
+    fn comment_text(&self, rng: &mut Rng, multi_line: bool) -> String {
+        const BITS: &[&str] = &[
+            "a", "comment", " ", " ", "  ", "\t", "*", "**", "/", "\"", "'", "#", "#define X", "\\", "£", "é", "→", "0x", "1.5e", "/*", "//", "`", "$", "@", ".", "<", ">",
+        ];
+        let mut s = String::new();
+        for _ in 0..rng.below(8) {
+            if multi_line && rng.chance(1, 5) {
+                if rng.chance(1, 4) {
+                    s.push('\\');
+                }
+                s.push_str(self.eol(rng));
+            } else {
+                s.push_str(*rng.pick(BITS));
+            }
+        }
+        s
+    }
+    fn line_comment(&mut self, rng: &mut Rng) {
+        if self.out.ends_with('/') && !self.in_line_comment {
+            self.raw(" ");
+        }
+        let mut c = self.comment_text(rng, false);
+        // a trailing backslash only when asked for (it turns the next line ending into a splice inside the comment)
+        while c.ends_with('\\') {
+            c.pop();
+        }
+        if rng.chance(1, 8) {
+            c.push('\\');
+        }
+        self.raw("//");
+        self.raw(&c);
+        self.in_line_comment = true;
+        self.prev = Class::Blank;
+    }
+    fn block_comment(&mut self, rng: &mut Rng) {
+        if self.out.ends_with('/') && !self.in_line_comment {
+            self.raw(" ");
+        }
+        // inside a line comment a block comment stays on the line: its later lines would be lexed as code
+        let multi = !self.in_line_comment && rng.chance(1, 2);
+        let mut c = self.comment_text(rng, multi).replace("*/", "* /");
+        if c.ends_with('\\') && self.in_line_comment {
+            c.push(' ');
+        }
+        self.raw("/*");
+        self.raw(&c);
+        self.raw("*/");
+        if !self.in_line_comment {
+            self.prev = Class::Blank;
+        }
+    }
+    /// a solid (non blank) piece
+    fn solid(&mut self, rng: &mut Rng, class: Class, s: &str) {
+        if self.in_line_comment {
+            // anything is comment text here, except that nothing may put a backslash last on the line by accident
+            self.raw(s);
+            if self.out.ends_with('\\') {
+                self.raw(" ");
+            }
+            return;
+        }
+        if s.starts_with('#') && self.line_start {
+            return; // would be a directive
+        }
+        let first = s.as_bytes()[0];
+        let need_space = match (self.prev, class) {
+            (Class::Number, Class::Word) | (Class::Number, Class::Number) => true,
+            (Class::Number, Class::Punct) if first == b'.' => true,
+            (Class::Word, Class::Number) | (Class::Swizzle, Class::Number) if s.contains('.') => true,
+            (Class::Word, Class::Word) | (Class::Word, Class::Number) | (Class::Swizzle, Class::Word) | (Class::Swizzle, Class::Number) => !rng.chance(1, 10),
+            (Class::Punct, Class::Number) | (Class::Punct, Class::Swizzle) if self.out.ends_with('.') => true,
+            (Class::Swizzle, Class::Swizzle) => true,
+            (Class::Str, _) | (_, Class::Str) => false,
+            _ => false,
+        } || (self.out.ends_with('/') && (first == b'/' || first == b'*'))
+            || (class == Class::Swizzle && self.prev != Class::Number && self.out.ends_with('.'));
+        if need_space {
+            self.raw(" ");
+        }
+        self.raw(s);
+        self.prev = class;
+        self.line_start = false;
+    }
+}
+
+fn random_identifier(rng: &mut Rng) -> String {
+    const FIRST: &[u8] = b"abcdefghijklmnopqrstuvwxyzABCDEFGHIJKLMNOPQRSTUVWXYZ_";
+    const REST: &[u8] = b"abcdefghijklmnopqrstuvwxyzABCDEFGHIJKLMNOPQRSTUVWXYZ_0123456789";
+    let mut s = String::new();
+    s.push(*rng.pick(FIRST) as char);
+    for _ in 0..rng.below(10) {
+        s.push(*rng.pick(REST) as char);
+    }
+    if s.starts_with("__H") {
+        s.insert(0, 'v');
+    }
+    s
+}
+
+fn random_string(rng: &mut Rng) -> String {
+    const BITS: &[&str] = &["a", "Hello", " ", "\\n", "\\", "/*", "*/", "//", "#", "'", "é", "→", "0", "%d", "<", ">", ".", "\t"];
+    let mut s = String::from("\"");
+    for _ in 0..rng.below(6) {
+        s.push_str(*rng.pick(BITS));
+    }
+    s.push('"');
+    s
+}
+
+const MALFORMED: &[&str] = &[
+    "$", "`", "'", "\\ ", "\r", "£", "é", "\u{7f}", "\u{0}", "1.5q", "0.0_", "10e4f32", "1.a", "0.#INF", "1e2#INF", "18446744073709551616", "99999999999999999999999u",
+    "0xFFFFFFFFFFFFFFFFF", "0x1ffffffffffffffffUL", "02000000000000000000000", "0xg", "\"abc", "\"ab\ncd\"", "\"\\\n\"", "1.0f0", "/* never closed", "1.5.y", "3.r",
+];
+
+struct GeneratedText {
+    text: String,
+    /// Some(reference unlex output) when the text was built to be lexable
+    unlex_model: Option<String>,
+    pre_files: Vec<String>,
+    eol_style: u8,
+    splices: usize,
+}
+
+fn generate_text(rng: &mut Rng) -> GeneratedText {
+    let eol_style = rng.below(3) as u8;
+    let mut g = TextGen::new(eol_style);
+    let span = if rng.chance(1, 8) { 280 } else { 80 };
+    let n = 20 + rng.below(span);
+    let inject_at = if rng.chance(1, 4) { Some(rng.below(n)) } else { None };
+    let mut injected = false;
+    for k in 0..n {
+        g.pieces += 1;
+        if inject_at == Some(k) && !g.in_line_comment {
+            let bad = *rng.pick(MALFORMED);
+            g.no_hash = true;
+            g.raw(" ");
+            g.raw(bad);
+            g.raw(" ");
+            g.prev = Class::Blank;
+            g.line_start = false;
+            injected = true;
+            continue;
+        }
+        match rng.below(100) {
+            0..=17 => g.blank(rng),
+            18..=27 => g.newline(rng),
+            28..=32 => g.splice(rng),
+            33..=36 => g.line_comment(rng),
+            37..=41 => g.block_comment(rng),
+            42..=51 => {
+                let w = if rng.chance(1, 2) { random_identifier(rng) } else { (*rng.pick(WORDS)).to_string() };
+                // sometimes a splice in the middle of the word
+                if w.len() >= 2 && rng.chance(1, 12) && !g.in_line_comment {
+                    let mut cut = 1 + rng.below(w.len() - 1);
+                    // the tail becomes a token of its own: keep it a word (a tail such as `0xk` would not lex)
+                    while cut > 0 && w.as_bytes()[cut].is_ascii_digit() {
+                        cut -= 1;
+                    }
+                    if cut == 0 {
+                        g.solid(rng, Class::Word, &w);
+                        continue;
+                    }
+                    g.solid(rng, Class::Word, &w[..cut]);
+                    g.splice(rng);
+                    g.raw(&w[cut..]);
+                    // the tail is a token of its own: a number when it starts with a digit
+                    g.prev = if w.as_bytes()[cut].is_ascii_digit() { Class::Number } else { Class::Word };
+                } else {
+                    g.solid(rng, Class::Word, &w);
+                }
+            }
+            52..=59 => {
+                let k = *rng.pick(KEYWORDS);
+                g.solid(rng, Class::Word, k)
+            }
+            60..=69 => {
+                let s = loop {
+                    let (s, v) = random_int_spelling(rng, false);
+                    if v <= u64::MAX as u128 {
+                        break s;
+                    }
+                };
+                if s.len() >= 2 && s.bytes().all(|b| b.is_ascii_digit()) && rng.chance(1, 8) && !g.in_line_comment {
+                    // splice inside a run of digits: two integer tokens
+                    // (the tail is read as a decimal number of its own: at most 19 digits so that it fits)
+                    let cut = (1 + rng.below(s.len() - 1)).max(s.len().saturating_sub(19));
+                    g.solid(rng, Class::Number, &s[..cut]);
+                    g.splice(rng);
+                    g.raw(&s[cut..]);
+                    g.prev = Class::Number;
+                } else {
+                    g.solid(rng, Class::Number, &s);
+                }
+                if rng.chance(1, 6) {
+                    let sw = *rng.pick(&[".x", ".xx", ".xxxx", ".xyzw", ".xy"]);
+                    g.solid(rng, Class::Swizzle, sw);
+                }
+            }
+            70..=79 => {
+                let s = if rng.chance(1, 10) { format!("1.{}#INF{}", if rng.chance(1, 2) { "0" } else { "" }, *rng.pick(&["", "f", "h", "L"])) } else { random_float_spelling(rng) };
+                g.solid(rng, Class::Number, &s);
+                if rng.chance(1, 6) {
+                    let sw = *rng.pick(&[".x", ".xx", ".xyz"]);
+                    g.solid(rng, Class::Swizzle, sw);
+                }
+            }
+            80..=83 => {
+                let s = random_string(rng);
+                g.solid(rng, Class::Str, &s);
+            }
+            _ => {
+                let p = *rng.pick(PUNCT);
+                if p.len() >= 2 && rng.chance(1, 10) && !g.in_line_comment && !(p.starts_with('#') && g.line_start) {
+                    // splice inside an operator: the halves are separate tokens
+                    g.solid(rng, Class::Punct, &p[..1]);
+                    g.splice(rng);
+                    if !(p[1..].starts_with('#') && g.line_start) {
+                        g.raw(&p[1..]);
+                        g.prev = Class::Punct;
+                        g.line_start = false;
+                    }
+                } else {
+                    g.solid(rng, Class::Punct, p);
+                }
+            }
+        }
+    }
+    if rng.chance(1, 2) {
+        g.newline(rng);
+    }
+    let mut pre_files = Vec::new();
+    for _ in 0..rng.below(3) {
+        let mut f = String::new();
+        for _ in 0..rng.below(40) {
+            f.push_str(*rng.pick(&["x", " ", "\n", "1", ";", "é"]));
+        }
+        pre_files.push(f);
+    }
+    let mut model = g.model;
+    if final_newline_needed(&g.out) {
+        model.push('\n');
+    }
+    GeneratedText {
+        text: g.out,
+        unlex_model: if injected { None } else { Some(model) },
+        pre_files,
+        eol_style,
+        splices: g.splices,
+    }
+}
+
+fn text_witness(text: &str, pre_files: &[String], unlex_model: &Option<String>) -> Json {
+    let mut j = Json::obj().set("kind", "text").set("text", text).set("pre_files", Json::Arr(pre_files.iter().map(Json::str).collect()));
+    if let Some(m) = unlex_model {
+        j.put("unlex_model", m.as_str());
+    }
+    j
+}
+
+/// Monitor 1 on one text
+fn examine_text(text: &str, pre_files: &[String], unlex_model: &Option<String>, report: &mut Report) {
+    let (lexed, base) = lex(text, pre_files, report);
+    let witness = || text_witness(text, pre_files, unlex_model);
+    match lexed {
+        Lexed::Tokens { tokens, unlex } => {
+            report.evaluations += 1; // unlex
+            report.count("text:lexed");
+            report.distinct(hash_str(text));
+            for t in &tokens {
+                report.count(&format!("token:{}", token_kind(&t.token)));
+            }
+            report.max("max:tokens_per_text", tokens.len() as u64);
+            if let Some((sig, summary)) = check_tiling(text, base, &tokens, &unlex) {
+                report.violation(&sig, &summary, witness().set("seen", summary.as_str()));
+                return;
+            }
+            if let (Some(model), Ok(u)) = (unlex_model, &unlex) {
+                report.count("text:unlex_compared_with_generator_model");
+                if u != model {
+                    report.violation(
+                        "unlex:model",
+                        &format!("unlex is not the input minus splice backslashes plus the final newline: got {:?} want {:?}", clip(u), clip(model)),
+                        witness().set("unlex", u.as_str()),
+                    );
+                    return;
+                }
+            }
+            // numeric tokens inside texts: the value must be what the spanned spelling denotes
+            for t in &tokens {
+                if let Some(seen) = token_number(&t.token) {
+                    let span = &text[(t.start - base) as usize..(t.end - base) as usize];
+                    match lit::read_literal(span) {
+                        Ok((l, used)) if used == span.len() => match expected_token(&l) {
+                            Expect::Token(want) => {
+                                report.count("text:literal_token_checked");
+                                if !same_number(&want, &seen) {
+                                    report.violation(
+                                        &literal_signature(&l, "value-in-text"),
+                                        &format!("token {:?} spans {:?} which denotes {}", t.token, span, want.describe()),
+                                        witness().set("span", span).set("token", format!("{:?}", t.token)),
+                                    );
+                                    return;
+                                }
+                            }
+                            _ => report.count("text:literal_span_undecided"),
+                        },
+                        _ => report.count("text:literal_span_not_a_whole_spelling"),
+                    }
+                }
+            }
+        }
+        Lexed::LexError { reason, raw, file, rendered } => {
+            report.count(&format!("text:lex_error:{}", reason));
+            if unlex_model.is_some() {
+                report.count(&format!("skipped:unexpected_lex_error:{}", reason));
+            }
+            report.distinct(hash_str(text));
+            if let Some((sig, summary)) = check_diagnostic(text, base, raw, &file, &rendered, report) {
+                report.violation(&sig, &summary, witness().set("diagnostic", rendered.clone().unwrap_or_default()));
+            }
+        }
+        Lexed::OtherError(e) => {
+            report.count(&format!("skipped:preprocessor_error:{}", e.lines().next().unwrap_or("").rsplit(": ").next().unwrap_or("")));
+        }
+        Lexed::Panic(c) => {
+            // an unterminated comment trips a debug assertion of the lexer: a panic is C08's business, nothing to judge here
+            report.count(&format!("skipped:panic:{}", c.signature()));
+        }
+    }
+}
+
+// ------------------------------------------------------------------------------------------------
+// Literal spellings and what the lexer must make of them (monitor 2)
+// ------------------------------------------------------------------------------------------------
+
+/// The number carried by a numeric token, as plain data
+#[derive(Clone, Debug, PartialEq)]
+enum Num {
+    Int(u64),
+    U32(u64),
+    U64(u64),
+    /// the i64 payload as its 64 bit pattern
+    I64(u64),
+    Float(u64),
+    F16(u32),
+    F32(u32),
+    F64(u64),
+}
+
+impl Num {
+    fn describe(&self) -> String {
+        match self {
+            Num::Int(v) => format!("LiteralInt({})", v),
+            Num::U32(v) => format!("LiteralIntUnsigned32({})", v),
+            Num::U64(v) => format!("LiteralIntUnsigned64({})", v),
+            Num::I64(v) => format!("LiteralIntSigned64({})", *v as i64),
+            Num::Float(b) => format!("LiteralFloat({:e} = bits {:#018x})", f64::from_bits(*b), b),
+            Num::F16(b) => format!("LiteralFloat16({:e} = bits {:#010x})", f32::from_bits(*b), b),
+            Num::F32(b) => format!("LiteralFloat32({:e} = bits {:#010x})", f32::from_bits(*b), b),
+            Num::F64(b) => format!("LiteralFloat64({:e} = bits {:#018x})", f64::from_bits(*b), b),
+        }
+    }
+}
+
+fn token_number(t: &Token) -> Option<Num> {
+    Some(match t {
+        Token::LiteralInt(v) => Num::Int(*v),
+        Token::LiteralIntUnsigned32(v) => Num::U32(*v),
+        Token::LiteralIntUnsigned64(v) => Num::U64(*v),
+        Token::LiteralIntSigned64(v) => Num::I64(*v as u64),
+        Token::LiteralFloat(v) => Num::Float(v.to_bits()),
+        Token::LiteralFloat16(v) => Num::F16(v.to_bits()),
+        Token::LiteralFloat32(v) => Num::F32(v.to_bits()),
+        Token::LiteralFloat64(v) => Num::F64(v.to_bits()),
+        _ => return None,
+    })
+}
+
+fn same_number(a: &Num, b: &Num) -> bool {
+    a == b
+}
+
+enum Expect {
+    Token(Num),
+    /// does not fit in 64 bits: lexing must fail with a diagnostic
+    Rejected,
+    /// an l / L suffixed value in [2^63, 2^64): fits in 64 bits but not in the signed token; only the bit pattern is compared
+    SignedWrap(Num),
+}
+
+/// What the property says the lexer must produce for a literal spelling
+fn expected_token(l: &Lit) -> Expect {
+    match l {
+        Lit::Int { value, suffix, .. } => {
+            if *value > u64::MAX as u128 {
+                return Expect::Rejected;
+            }
+            let v = *value as u64;
+            match suffix {
+                IntSuffix::None => Expect::Token(Num::Int(v)),
+                IntSuffix::U => Expect::Token(Num::U32(v)),
+                IntSuffix::UL => Expect::Token(Num::U64(v)),
+                IntSuffix::L => {
+                    if v > i64::MAX as u64 {
+                        Expect::SignedWrap(Num::I64(v))
+                    } else {
+                        Expect::Token(Num::I64(v))
+                    }
+                }
+            }
+        }
+        Lit::Float { value, suffix, .. } => Expect::Token(match suffix {
+            FloatSuffix::None => Num::Float(value.to_bits()),
+            FloatSuffix::L => Num::F64(value.to_bits()),
+            // narrowed once
+            FloatSuffix::F => Num::F32((*value as f32).to_bits()),
+            FloatSuffix::H => Num::F16((*value as f32).to_bits()),
+        }),
+    }
+}
+
+fn literal_class(l: &Lit) -> String {
+    match l {
+        Lit::Int { base, suffix, .. } => format!("int:{:?}:{:?}", base, suffix).to_lowercase(),
+        Lit::Float { suffix, inf_form, .. } => format!("float{}:{:?}", if *inf_form { "-inf-form" } else { "" }, suffix).to_lowercase(),
+    }
+}
+
+fn literal_signature(l: &Lit, what: &str) -> String {
+    format!("literal:{}:{}", literal_class(l), what)
+}
+
+/// `.5`: a floating spelling without a digit before the point
+fn leading_point(spelling: &str) -> bool {
+    spelling.starts_with('.')
+}
+
+const INT_SUFFIXES: &[&str] = &["", "u", "U", "l", "L", "ul", "uL", "Ul", "UL", "lu", "lU", "Lu", "LU"];
+
+fn digits_in_base(mut v: u128, radix: u32, rng: &mut Rng) -> String {
+    if v == 0 {
+        return "0".into();
+    }
+    let mut s = Vec::new();
+    while v > 0 {
+        let d = (v % radix as u128) as u32;
+        let mut c = std::char::from_digit(d, radix).unwrap();
+        if rng.chance(1, 2) {
+            c = c.to_ascii_uppercase();
+        }
+        s.push(c);
+        v /= radix as u128;
+    }
+    s.iter().rev().collect()
+}
+
+/// An integer spelling of at most 25 digits; (spelling, value). `any_suffix` = false keeps to suffixes the rest of a text does not care about.
+fn random_int_spelling(rng: &mut Rng, any_suffix: bool) -> (String, u128) {
+    let base = rng.below(3);
+    let radix: u32 = [10, 16, 8][base];
+    let max_digits = 25usize;
+    let limit: u128 = (radix as u128).pow(max_digits as u32) - 1;
+    const LANDMARKS: &[u128] = &[
+        0,
+        1,
+        7,
+        8,
+        255,
+        0x7fff_ffff,
+        0x8000_0000,
+        0xffff_ffff,
+        0x1_0000_0000,
+        0x7fff_ffff_ffff_ffff,
+        0x8000_0000_0000_0000,
+        0xffff_ffff_ffff_ffff,
+        0x1_0000_0000_0000_0000,
+        10_000_000_000_000_000_000,
+        18_446_744_073_709_551_615,
+        18_446_744_073_709_551_616,
+        99_999_999_999_999_999_999,
+        0x10_0000_0000_0000_0000,
+        36_893_488_147_419_103_232,
+        184_467_440_737_095_516_160,
+    ];
+    let value: u128 = match rng.below(10) {
+        0..=2 => {
+            // near a landmark
+            let l = *rng.pick(LANDMARKS);
+            let d = rng.below(5) as u128;
+            if rng.chance(1, 2) {
+                l + d
+            } else {
+                l.saturating_sub(d)
+            }
+        }
+        3..=5 => {
+            // random digit count, uniform digits
+            let n = 1 + rng.below(max_digits);
+            let mut v: u128 = 0;
+            for _ in 0..n {
+                v = v * radix as u128 + rng.below(radix as usize) as u128;
+            }
+            v
+        }
+        6..=7 => rng.next_u64() as u128 >> rng.below(64),
+        8 => (rng.next_u64() as u128) << rng.below(20),
+        _ => rng.next_u64() as u128 + ((rng.below(3) as u128) << 64),
+    }
+    .min(limit);
+    let mut digits = digits_in_base(value, radix, rng);
+    // leading zeros up to 25 digits (not for decimal: that would be octal)
+    if radix != 10 && rng.chance(1, 6) && digits.len() < max_digits {
+        let z = rng.below(max_digits - digits.len() + 1);
+        digits = format!("{}{}", "0".repeat(z), digits);
+    }
+    let prefix = match radix {
+        16 => "0x",
+        8 => "0",
+        _ => "",
+    };
+    let suffix = if any_suffix || rng.chance(1, 2) { *rng.pick(INT_SUFFIXES) } else { "" };
+    // octal 0 followed by no digits is decimal zero; "00" is octal zero: both fine
+    (format!("{}{}{}", prefix, digits, suffix), value)
+}
+
+const FLOAT_SUFFIXES: &[&str] = &["", "", "", "", "f", "f", "f", "F", "h", "H", "l", "L"];
+
+/// Assemble `digits . digits e[+-]digits` out of a significand digit string scaled by 10^exp10
+fn spell_float(rng: &mut Rng, sig: &str, exp10: i64) -> String {
+    // choose where the point goes: `point` digits before it
+    let n = sig.len() as i64;
+    let point = rng.range(0, n);
+    let mut int_part = sig[..point as usize].to_string();
+    let mut frac_part = sig[point as usize..].to_string();
+    // value = int.frac x 10^(exp10 + n - point)
+    let mut e = exp10 + (n - point);
+    // sometimes move trailing zeros / exponent between the parts
+    if rng.chance(1, 5) && e > 0 && e < 8 && frac_part.is_empty() {
+        int_part.push_str(&"0".repeat(e as usize));
+        e = 0;
+    }
+    if rng.chance(1, 6) {
+        int_part = format!("{}{}", "0".repeat(1 + rng.below(3)), int_part);
+    }
+    if rng.chance(1, 6) && !frac_part.is_empty() {
+        frac_part.push_str(&"0".repeat(1 + rng.below(3)));
+    }
+    // `.5` (no digit before the point) is lexed as `.` `5`: open known finding KF-C10-3, probed by its own witness only
+    if int_part.is_empty() {
+        int_part.push('0');
+    }
+    let mut s = String::new();
+    let show_point = !frac_part.is_empty() || int_part.is_empty() || e == 0 || rng.chance(1, 2);
+    if int_part.is_empty() && frac_part.is_empty() {
+        int_part.push('0');
+    }
+    if int_part.is_empty() && !show_point {
+        int_part.push('0');
+    }
+    s.push_str(&int_part);
+    if show_point {
+        s.push('.');
+        if int_part.is_empty() && frac_part.is_empty() {
+            frac_part.push('0');
+        }
+        s.push_str(&frac_part);
+    }
+    if e != 0 || !show_point || rng.chance(1, 5) {
+        s.push(if rng.chance(1, 3) { 'E' } else { 'e' });
+        if e < 0 {
+            s.push('-');
+        } else if rng.chance(1, 3) {
+            s.push('+');
+        }
+        if rng.chance(1, 12) {
+            s.push_str(&"0".repeat(1 + rng.below(22)));
+        }
+        s.push_str(&e.abs().to_string());
+    }
+    s
+}
+
+/// Exact decimal digits and power of ten of m x 2^e (m > 0)
+fn dyadic_decimal(m: u64, e: i32) -> (String, i64) {
+    let mut b = lit::Big::from_u64(m);
+    if e >= 0 {
+        (b.shl(e as u32).to_decimal(), 0)
+    } else {
+        // m x 2^e = m x 5^(-e) x 10^e
+        b.mul_pow5((-e) as u32);
+        (b.to_decimal(), e as i64)
+    }
+}
+
+/// Truncate a digit string to `keep` significant digits, optionally adding one unit in the last kept place
+fn cut_digits(digits: &str, exp10: i64, keep: usize, bump: bool) -> (String, i64) {
+    if digits.len() <= keep {
+        return (digits.to_string(), exp10);
+    }
+    let dropped = digits.len() - keep;
+    let mut d: Vec<u8> = digits.as_bytes()[..keep].to_vec();
+    if bump {
+        let mut i = keep;
+        loop {
+            if i == 0 {
+                d.insert(0, b'1');
+                break;
+            }
+            i -= 1;
+            if d[i] == b'9' {
+                d[i] = b'0';
+            } else {
+                d[i] += 1;
+                break;
+            }
+        }
+    }
+    (String::from_utf8(d).unwrap(), exp10 + dropped as i64)
+}
+
+const FLOAT_LANDMARKS: &[&str] = &[
+    "0.0031308", "0.055", "0.1", "0.3", "2.7", "7e-7", "4.863e+11", "1.7976931348623157e308", "1.7976931348623158e308", "1.7976931348623159e308", "1.8e308", "1e309",
+    "4.9406564584124654e-324", "2.4703282292062327e-324", "2.4703282292062328e-324", "2.2250738585072014e-308", "2.2250738585072011e-308", "3.4028234663852886e38",
+    "3.4028235e38", "3.4028235677973366e38", "3.4028235677973367e38", "1.401298464324817e-45", "7.006492321624085e-46", "7.006492321624086e-46", "1.1754943508222875e-38",
+    "16777217.0", "16777217.000000001", "9007199254740993.0", "9007199254740992.5", "0.5", "1.0", "0.0", "0e0", "0e310", "0.0e-330", "1e-330", "1e310", "12345678901234567890e-10",
+    "8.5", "0.000001", "1e23", "8.41e21", "9.5e-323", "6.1e-5", "65504.0", "65519.99", "5.9604644775390625e-8", "1e22", "1e21",
+];
+
+/// A floating spelling within the quantifier of the property (<= 20 significant digits, magnitude in [-330, 310])
+fn random_float_spelling(rng: &mut Rng) -> String {
+    let core = match rng.below(20) {
+        0..=8 => {
+            // random digits
+            let n = 1 + rng.below(20);
+            let mut sig = String::new();
+            for i in 0..n {
+                let d = if i == 0 && n > 1 { 1 + rng.below(9) } else { rng.below(10) };
+                sig.push(std::char::from_digit(d as u32, 10).unwrap());
+            }
+            // decimal magnitude = n + exp10 in [-330, 310], mostly near the everyday range
+            let magnitude = if rng.chance(1, 2) { rng.range(-12, 14) } else { rng.range(-330, 310) };
+            spell_float(rng, &sig, magnitude - n as i64)
+        }
+        9..=12 => {
+            // just below / above the midpoint of two adjacent doubles
+            let x = random_finite_f64(rng);
+            let (m, e) = decompose64(x);
+            // midpoint between m and m+1 at exponent e: (2m+1) x 2^(e-1)
+            let (digits, exp10) = dyadic_decimal(2 * m + 1, e - 1);
+            let keep = 17 + rng.below(4);
+            let (d, x10) = cut_digits(&digits, exp10, keep, rng.chance(1, 2));
+            if (d.len() as i64 + x10) < -330 || (d.len() as i64 + x10) > 310 {
+                "1.5".to_string()
+            } else {
+                spell_float(rng, &d, x10)
+            }
+        }
+        13..=15 => {
+            // just below / above the midpoint of two adjacent floats (matters after narrowing)
+            let y = random_finite_f32(rng);
+            let (m, e) = decompose32(y);
+            let (digits, exp10) = dyadic_decimal(2 * m + 1, e - 1);
+            let keep = 8 + rng.below(13);
+            let (d, x10) = cut_digits(&digits, exp10, keep, rng.chance(1, 2));
+            spell_float(rng, &d, x10)
+        }
+        16..=17 => {
+            // shortest spelling of a random double / float: the everyday case
+            if rng.chance(1, 2) {
+                let x = random_finite_f64(rng);
+                format!("{:e}", x)
+            } else {
+                format!("{:e}", random_finite_f32(rng))
+            }
+        }
+        18 => {
+            if rng.chance(1, 4) {
+                // HLSL's spelling of infinity
+                format!("{}.{}#INF", 1 + rng.below(9), if rng.chance(1, 2) { "0" } else { "" })
+            } else {
+                let p = rng.range(-330, 310);
+                format!("1e{}", p)
+            }
+        }
+        _ => (*rng.pick(FLOAT_LANDMARKS)).to_string(),
+    };
+    // `1e5`-style spellings from format!("{:e}") have no point: fine, both are floating spellings
+    format!("{}{}", core, *rng.pick(FLOAT_SUFFIXES))
+}
+
+fn random_finite_f64(rng: &mut Rng) -> f64 {
+    // mostly everyday exponents, sometimes anything including subnormals
+    let exp = if rng.chance(1, 2) { 1023 - 40 + rng.below(90) as u64 } else { rng.below(0x7ff) as u64 };
+    f64::from_bits((exp << 52) | (rng.next_u64() >> 12))
+}
+
+fn random_finite_f32(rng: &mut Rng) -> f32 {
+    let exp = if rng.chance(1, 2) { 127 - 30 + rng.below(60) as u32 } else { rng.below(0xff) as u32 };
+    f32::from_bits((exp << 23) | (rng.next_u32() >> 9))
+}
+
+/// x = m x 2^e with integer m
+fn decompose64(x: f64) -> (u64, i32) {
+    let bits = x.to_bits();
+    let exp = ((bits >> 52) & 0x7ff) as i32;
+    let frac = bits & ((1 << 52) - 1);
+    if exp == 0 {
+        (frac.max(1), -1074)
+    } else {
+        (frac | (1 << 52), exp - 1075)
+    }
+}
+
+fn decompose32(x: f32) -> (u64, i32) {
+    let bits = x.to_bits();
+    let exp = ((bits >> 23) & 0xff) as i32;
+    let frac = (bits & ((1 << 23) - 1)) as u64;
+    if exp == 0 {
+        (frac.max(1), -149)
+    } else {
+        (frac | (1 << 23), exp - 150)
+    }
+}
+
+const BEFORE: &[&str] = &["", "", "", " ", "x = ", "(", "-", "+", "\n", "\r\n", "/*c*/", "a\\\n", "\t", "{", ",", "//c\n", "[", "?", "!"];
+const AFTER: &[&str] = &[
+    "", "", ";", ";", " ", ")", ",", "\n", "\r\n", "+1", "-x", "]", "}", "/*c*/", "//c", "\\\n", "\\\r\n", ".x", ".xxxx", ".xyz", " .x", "*2", ":", "?", "\t;", ">", "<", "\"s\"", "/ 2", "|",
+];
+
+fn literal_witness(before: &str, spelling: &str, after: &str) -> Json {
+    Json::obj().set("kind", "literal").set("before", before).set("spelling", spelling).set("after", after)
+}
+
+/// Monitor 2 on one spelling between two neighbours
+fn examine_literal(before: &str, spelling: &str, after: &str, report: &mut Report) {
+    let witness = || literal_witness(before, spelling, after);
+    let (l, used) = match lit::read_literal(spelling) {
+        Ok(x) => x,
+        Err(e) => {
+            report.inconclusive(&format!("generator produced a spelling the reference cannot read: {:?}: {}", spelling, e));
+            return;
+        }
+    };
+    if used != spelling.len() {
+        report.inconclusive(&format!("reference reads only {} bytes of {:?}", used, spelling));
+        return;
+    }
+    // the oracle does not trust one conversion routine: big integer arithmetic must agree with Rust's parser
+    if let Lit::Float { value, digits, exp10, inf_form, .. } = &l {
+        if !inf_form {
+            let exact = lit::decimal_to_f64_bigint(digits, *exp10);
+            report.count("oracle:float_crosschecked_bigint");
+            if exact.to_bits() != value.to_bits() {
+                report.inconclusive(&format!("oracle self check failed on {:?}: rust {:e} big-integer {:e}", spelling, value, exact));
+                return;
+            }
+            let class = if *value == 0.0 {
+                "zero"
+            } else if value.is_infinite() {
+                "overflow_to_inf"
+            } else if *value < f64::MIN_POSITIVE {
+                "subnormal"
+            } else {
+                "normal"
+            };
+            report.count(&format!("float_value:{}", class));
+            let significant = {
+                let t: Vec<u8> = digits.iter().copied().skip_while(|d| *d == b'0').collect();
+                t.len() - t.iter().rev().take_while(|d| **d == b'0').count()
+            };
+            report.max("max:float_significant_digits", significant as u64);
+        }
+    }
+    let class = literal_class(&l);
+    report.count(&format!("literal:{}", class));
+    let sig = |what: &str| -> String {
+        if leading_point(spelling) {
+            "literal:float:leading-point-not-lexed-as-one-literal".to_string()
+        } else {
+            literal_signature(&l, what)
+        }
+    };
+    let text = format!("{}{}{}", before, spelling, after);
+    let (lexed, base) = lex(&text, &[], report);
+    let expect = expected_token(&l);
+    let at = before.len() as u32;
+    match lexed {
+        Lexed::Tokens { tokens, unlex } => {
+            report.evaluations += 1;
+            report.distinct(hash_str(&text));
+            if let Expect::Rejected = expect {
+                let tok = tokens.iter().find(|t| t.start - base == at).map(|t| format!("{:?}", t.token)).unwrap_or_default();
+                report.violation(
+                    &sig("too-large-accepted"),
+                    &format!("{:?} does not fit in 64 bits but was lexed as {}", spelling, tok),
+                    witness().set("token", tok.as_str()),
+                );
+                return;
+            }
+            if let Some((sig, summary)) = check_tiling(&text, base, &tokens, &unlex) {
+                report.violation(&sig, &summary, witness().set("seen", summary.as_str()));
+                return;
+            }
+            let Some(tok) = tokens.iter().find(|t| t.start - base == at && t.end > t.start) else {
+                report.violation(
+                    &sig("span"),
+                    &format!("no token starts where {:?} starts in {:?}", spelling, text),
+                    witness().set("tokens", format!("{:?}", tokens.iter().map(|t| (&t.token, t.start, t.end)).collect::<Vec<_>>())),
+                );
+                return;
+            };
+            let Some(seen) = token_number(&tok.token) else {
+                report.violation(
+                    &sig("kind"),
+                    &format!("{:?} lexed as {:?}, not as a numeric literal", spelling, tok.token),
+                    witness().set("token", format!("{:?}", tok.token)),
+                );
+                return;
+            };
+            if tok.end - base != at + spelling.len() as u32 {
+                report.violation(
+                    &sig("span"),
+                    &format!("{:?} in {:?}: the literal token {:?} spans {}..{} instead of {}..{}", spelling, text, tok.token, tok.start - base, tok.end - base, at, at + spelling.len() as u32),
+                    witness().set("token", format!("{:?}", tok.token)),
+                );
+                return;
+            }
+            let (want, wrap) = match expect {
+                Expect::Token(n) => (n, false),
+                Expect::SignedWrap(n) => (n, true),
+                Expect::Rejected => unreachable!(),
+            };
+            if wrap {
+                // 2^63 <= value < 2^64 with an l suffix: the signed token cannot hold it. C gives such a literal an unsigned type; the property only
+                // speaks of 64 bits. Undecided beyond the bit pattern.
+                report.count("undecided:l_suffix_value_ge_2^63_compared_as_bit_pattern");
+            }
+            if !same_number(&want, &seen) {
+                report.violation(
+                    &sig("value"),
+                    &format!("{:?} denotes {} but the token is {}", spelling, want.describe(), seen.describe()),
+                    witness().set("want", want.describe()).set("token", seen.describe()),
+                );
+                return;
+            }
+            report.count("literal:value_exact");
+            if report.samples.len() < 2 && spelling.len() > 12 && before.len() + after.len() > 0 && report.counters.contains_key("directed_literals") {
+                report.sample(witness().set("token", seen.describe()));
+            }
+        }
+        Lexed::LexError { reason, raw, file, rendered } => {
+            report.distinct(hash_str(&text));
+            match expect {
+                Expect::Rejected => {
+                    report.count(&format!("literal:rejected_as_too_large:{}", reason));
+                    if let Some((sig, summary)) = check_diagnostic(&text, base, raw, &file, &rendered, report) {
+                        report.violation(&sig, &summary, witness().set("diagnostic", rendered.clone().unwrap_or_default()));
+                    }
+                }
+                _ => {
+                    report.violation(
+                        &sig("rejected"),
+                        &format!("{:?} is a well formed literal that fits but lexing {:?} failed: {}", spelling, text, reason),
+                        witness().set("diagnostic", rendered.clone().unwrap_or_default()),
+                    );
+                }
+            }
+        }
+        Lexed::OtherError(e) => report.count(&format!("skipped:preprocessor_error:{}", e.lines().next().unwrap_or(""))),
+        Lexed::Panic(c) => {
+            // the property names this: a literal must be lexed or rejected with a diagnostic, not panic
+            report.violation(
+                &sig(&format!("panic:{}", c.signature())),
+                &format!("lexing {:?} panicked at {}: {}", text, c.location, c.message),
+                witness().set("panic", format!("{} {}", c.location, c.message)),
+            );
+        }
+    }
+}
+
+// ------------------------------------------------------------------------------------------------
+// Output leg (monitor 3)
+// ------------------------------------------------------------------------------------------------
+
+#[derive(Clone, Copy, Debug, PartialEq, Eq)]
+enum Ty {
+    Float,
+    Half,
+    Double,
+    Int,
+    Uint,
+}
+
+const ALL_TYS: [Ty; 5] = [Ty::Float, Ty::Half, Ty::Double, Ty::Int, Ty::Uint];
+
+impl Ty {
+    fn name(self) -> &'static str {
+        match self {
+            Ty::Float => "float",
+            Ty::Half => "half",
+            Ty::Double => "double",
+            Ty::Int => "int",
+            Ty::Uint => "uint",
+        }
+    }
+    fn from_name(s: &str) -> Option<Ty> {
+        ALL_TYS.iter().copied().find(|t| t.name() == s)
+    }
+    fn is_float(self) -> bool {
+        matches!(self, Ty::Float | Ty::Half | Ty::Double)
+    }
+}
+
+/// A typed value as the language sees it. Half values are carried in single precision (see assumptions).
+#[derive(Clone, Copy, Debug, PartialEq)]
+enum Val {
+    LitInt(i128),
+    I32(i32),
+    U32(u32),
+    I64(i64),
+    U64(u64),
+    LitFloat(f64),
+    F16(f32),
+    F32(f32),
+    F64(f64),
+}
+
+#[derive(Clone, Copy, Debug, PartialEq)]
+enum Conv {
+    Exact(Val),
+    /// out of range conversion to a signed integer: implementation defined, two's complement wrap assumed
+    Wrapped(Val),
+    Undefined,
+}
+
+fn as_real(v: Val) -> Option<f64> {
+    Some(match v {
+        Val::LitFloat(d) | Val::F64(d) => d,
+        Val::F16(x) | Val::F32(x) => x as f64,
+        _ => return None,
+    })
+}
+
+fn as_integer(v: Val) -> Option<i128> {
+    Some(match v {
+        Val::LitInt(i) => i,
+        Val::I32(i) => i as i128,
+        Val::U32(i) => i as i128,
+        Val::I64(i) => i as i128,
+        Val::U64(i) => i as i128,
+        _ => return None,
+    })
+}
+
+/// The implicit / explicit conversion of a value to a scalar type
+fn convert(v: Val, to: Ty) -> Conv {
+    if let Some(i) = as_integer(v) {
+        return match to {
+            // integer to floating: nearest, ties to even (Rust's `as` does exactly that)
+            Ty::Float => Conv::Exact(Val::F32(i as f32)),
+            Ty::Half => Conv::Exact(Val::F16(i as f32)),
+            Ty::Double => Conv::Exact(Val::F64(i as f64)),
+            Ty::Uint => Conv::Exact(Val::U32(i.rem_euclid(1 << 32) as u32)),
+            Ty::Int => {
+                if i >= i32::MIN as i128 && i <= i32::MAX as i128 {
+                    Conv::Exact(Val::I32(i as i32))
+                } else {
+                    Conv::Wrapped(Val::I32(i.rem_euclid(1 << 32) as u32 as i32))
+                }
+            }
+        };
+    }
+    let d = as_real(v).unwrap();
+    match to {
+        Ty::Float => Conv::Exact(Val::F32(match v {
+            Val::F16(x) | Val::F32(x) => x,
+            _ => d as f32,
+        })),
+        Ty::Half => Conv::Exact(Val::F16(match v {
+            Val::F16(x) | Val::F32(x) => x,
+            _ => d as f32,
+        })),
+        Ty::Double => Conv::Exact(Val::F64(d)),
+        Ty::Int => {
+            let t = d.trunc();
+            if t.is_finite() && t >= i32::MIN as f64 && t <= i32::MAX as f64 {
+                Conv::Exact(Val::I32(t as i32))
+            } else {
+                Conv::Undefined
+            }
+        }
+        Ty::Uint => {
+            let t = d.trunc();
+            if t.is_finite() && t >= 0.0 && t <= u32::MAX as f64 {
+                Conv::Exact(Val::U32(t as u32))
+            } else {
+                Conv::Undefined
+            }
+        }
+    }
+}
+
+fn negate(v: Val) -> Option<Val> {
+    Some(match v {
+        Val::LitInt(i) => Val::LitInt(-i),
+        Val::I32(i) => Val::I32(i.checked_neg()?),
+        Val::LitFloat(d) => Val::LitFloat(-d),
+        Val::F16(x) => Val::F16(-x),
+        Val::F32(x) => Val::F32(-x),
+        Val::F64(d) => Val::F64(-d),
+        // negating unsigned / 64 bit values is not exercised
+        _ => return None,
+    })
+}
+
+/// The typed value a literal spelling denotes (C / HLSL: unsuffixed literals adapt to their context, u is 32 bit unsigned when it fits)
+fn literal_value(l: &Lit) -> Option<Val> {
+    Some(match l {
+        Lit::Int { value, suffix, .. } => {
+            if *value > u64::MAX as u128 {
+                return None;
+            }
+            match suffix {
+                IntSuffix::None => Val::LitInt(*value as i128),
+                IntSuffix::U => {
+                    if *value <= u32::MAX as u128 {
+                        Val::U32(*value as u32)
+                    } else {
+                        Val::U64(*value as u64)
+                    }
+                }
+                IntSuffix::L => {
+                    if *value > i64::MAX as u128 {
+                        return None;
+                    }
+                    Val::I64(*value as i64)
+                }
+                IntSuffix::UL => Val::U64(*value as u64),
+            }
+        }
+        Lit::Float { value, suffix, .. } => match suffix {
+            FloatSuffix::None => Val::LitFloat(*value),
+            FloatSuffix::F => Val::F32(*value as f32),
+            FloatSuffix::H => Val::F16(*value as f32),
+            FloatSuffix::L => Val::F64(*value),
+        },
+    })
+}
+
+/// Type both operands of `x * LIT` are brought to (usual arithmetic conversions, literals adapting to the other operand)
+fn common_type(x: Ty, l: Val) -> Option<Ty> {
+    Some(match l {
+        Val::LitFloat(_) => {
+            if x.is_float() {
+                x
+            } else {
+                Ty::Float
+            }
+        }
+        Val::F32(_) => match x {
+            Ty::Double => Ty::Double,
+            _ => Ty::Float,
+        },
+        Val::F16(_) => match x {
+            Ty::Double => Ty::Double,
+            Ty::Float => Ty::Float,
+            _ => Ty::Half,
+        },
+        Val::F64(_) => Ty::Double,
+        Val::LitInt(_) => x,
+        Val::U32(_) => match x {
+            Ty::Int | Ty::Uint => Ty::Uint,
+            t => t,
+        },
+        _ => return None,
+    })
+}
+
+#[derive(Clone, Debug, PartialEq)]
+struct Program {
+    /// 0 = static const, 1 = return, 2 = parameter * literal, 3 = literal / divisor in a static const
+    context: u8,
+    ty: Ty,
+    spelling: String,
+    negate: bool,
+    /// divisor spelling of context 3
+    divisor: String,
+}
+
+impl Program {
+    fn lit_text(&self) -> String {
+        format!("{}{}", if self.negate { "-" } else { "" }, self.spelling)
+    }
+    fn text(&self) -> String {
+        let t = self.ty.name();
+        match self.context {
+            0 => format!("static const {} c10_v = {};\n", t, self.lit_text()),
+            1 => format!("{} c10_f() {{ return {}; }}\n", t, self.lit_text()),
+            2 => format!("double c10_f({} c10_x) {{ return c10_x * {}; }}\n", t, self.lit_text()),
+            _ => format!("static const {} c10_v = {} / {};\n", t, self.lit_text(), self.divisor),
+        }
+    }
+    fn to_json(&self) -> Json {
+        Json::obj()
+            .set("kind", "program")
+            .set("context", self.context as i64)
+            .set("type", self.ty.name())
+            .set("spelling", self.spelling.as_str())
+            .set("negate", self.negate)
+            .set("divisor", self.divisor.as_str())
+            .set("program", self.text())
+    }
+    fn from_json(j: &Json) -> Option<Program> {
+        Some(Program {
+            context: j.get("context")?.as_i64()? as u8,
+            ty: Ty::from_name(j.get_str("type")?)?,
+            spelling: j.get_str("spelling")?.to_string(),
+            negate: j.get("negate").and_then(|b| b.as_bool()).unwrap_or(false),
+            divisor: j.get_str("divisor").unwrap_or("").to_string(),
+        })
+    }
+}
+
+// ---- reading the emitted HLSL -------------------------------------------------------------------
+
+struct Reader<'a> {
+    s: &'a str,
+    pos: usize,
+}
+
+#[derive(Debug)]
+enum ReadError {
+    /// a constant of floating type printed with an integer spelling: (text, suffix)
+    IntegerSpelledFloat(String, char),
+    Unrecognised(String),
+    /// a conversion the language leaves undefined (float out of the range of an integer type)
+    Undefined,
+}
+
+impl<'a> Reader<'a> {
+    fn rest(&self) -> &'a str {
+        &self.s[self.pos..]
+    }
+    fn skip_ws(&mut self) {
+        while self.rest().starts_with(' ') {
+            self.pos += 1;
+        }
+    }
+    fn eat(&mut self, t: &str) -> bool {
+        if self.rest().starts_with(t) {
+            self.pos += t.len();
+            true
+        } else {
+            false
+        }
+    }
+    /// unary := '(' type ')' unary | '-' unary | '(' unary ')' | literal
+    fn unary(&mut self, leaves: &mut Vec<(String, Val)>) -> Result<Val, ReadError> {
+        self.skip_ws();
+        if self.eat("(") {
+            for ty in ALL_TYS {
+                let save = self.pos;
+                if self.eat(ty.name()) && self.eat(")") {
+                    let inner = self.unary(leaves)?;
+                    return match convert(inner, ty) {
+                        Conv::Exact(v) | Conv::Wrapped(v) => Ok(v),
+                        Conv::Undefined => Err(ReadError::Undefined),
+                    };
+                }
+                self.pos = save;
+            }
+            let inner = self.unary(leaves)?;
+            self.skip_ws();
+            if !self.eat(")") {
+                return Err(ReadError::Unrecognised(format!("expected ) at {:?}", clip(self.rest()))));
+            }
+            return Ok(inner);
+        }
+        if self.eat("-") {
+            let inner = self.unary(leaves)?;
+            return negate(inner).ok_or_else(|| ReadError::Unrecognised("negation of an unsigned value".into()));
+        }
+        self.leaf(leaves)
+    }
+    fn leaf(&mut self, leaves: &mut Vec<(String, Val)>) -> Result<Val, ReadError> {
+        let rest = self.rest();
+        match lit::read_literal(rest) {
+            Ok((l, used)) => {
+                let text = &rest[..used];
+                self.pos += used;
+                let v = literal_value(&l).ok_or_else(|| ReadError::Unrecognised(format!("literal {:?} has no 64 bit value", text)))?;
+                leaves.push((text.to_string(), v));
+                Ok(v)
+            }
+            Err(e) => {
+                // digits directly followed by h: not a literal of HLSL at all
+                let digits = rest.bytes().take_while(|b| b.is_ascii_digit()).count();
+                if digits > 0 && matches!(rest.as_bytes().get(digits), Some(b'h' | b'H')) {
+                    return Err(ReadError::IntegerSpelledFloat(rest[..digits + 1].to_string(), 'h'));
+                }
+                Err(ReadError::Unrecognised(format!("{} at {:?}", e, clip(rest))))
+            }
+        }
+    }
+    /// The literals of `[cast] ( a / b ) ;` in order, ignoring brackets and casts
+    fn division_leaves(&mut self) -> Result<Vec<(String, Val)>, ReadError> {
+        let mut leaves = Vec::new();
+        loop {
+            self.skip_ws();
+            let rest = self.rest();
+            if rest.is_empty() || rest == ";" {
+                return Ok(leaves);
+            }
+            if self.eat("(") || self.eat(")") || self.eat("/") {
+                continue;
+            }
+            if let Some(ty) = ALL_TYS.iter().find(|t| rest.starts_with(t.name())) {
+                self.pos += ty.name().len();
+                continue;
+            }
+            if rest.as_bytes()[0].is_ascii_digit() || rest.starts_with('.') {
+                self.leaf(&mut leaves)?;
+                continue;
+            }
+            return Err(ReadError::Unrecognised(format!("unexpected {:?}", clip(rest))));
+        }
+    }
+}
+
+/// Find the expression text that follows `marker` in the output
+fn after_marker<'a>(source: &'a str, marker: &str) -> Option<&'a str> {
+    let at = source.find(marker)?;
+    let rest = &source[at + marker.len()..];
+    let end = rest.find('\n').unwrap_or(rest.len());
+    Some(&rest[..end])
+}
+
+fn values_equal(a: Val, b: Val, allow_zero_sign: bool) -> bool {
+    match (a, b) {
+        (Val::F32(x), Val::F32(y)) | (Val::F16(x), Val::F16(y)) => x.to_bits() == y.to_bits() || (allow_zero_sign && x == 0.0 && y == 0.0),
+        (Val::F64(x), Val::F64(y)) => x.to_bits() == y.to_bits() || (allow_zero_sign && x == 0.0 && y == 0.0),
+        (a, b) => a == b,
+    }
+}
+
+fn describe_val(v: Val) -> String {
+    match v {
+        Val::F32(x) | Val::F16(x) => format!("{:?} ({:e}, bits {:#010x})", v, x, x.to_bits()),
+        Val::F64(x) | Val::LitFloat(x) => format!("{:?} ({:e}, bits {:#018x})", v, x, x.to_bits()),
+        _ => format!("{:?}", v),
+    }
+}
+
+/// Monitor 3 on one program. `avoid_known` = skip the constructs of the open known findings (main workload).
+fn examine_program(p: &Program, avoid_known: bool, report: &mut Report) {
+    let parse = |s: &str| lit::read_literal(s).ok().filter(|(_, used)| *used == s.len()).map(|(l, _)| l);
+    let Some(l) = parse(&p.spelling) else {
+        report.inconclusive(&format!("output leg: reference cannot read {:?}", p.spelling));
+        return;
+    };
+    let Some(mut src) = literal_value(&l) else {
+        report.count("output:skipped:literal_without_64_bit_value");
+        return;
+    };
+    if p.negate {
+        match negate(src) {
+            Some(v) => src = v,
+            None => {
+                report.count("output:skipped:negated_unsigned");
+                return;
+            }
+        }
+    }
+    let divisor = if p.context == 3 {
+        match parse(&p.divisor).and_then(|d| literal_value(&d)) {
+            Some(d) => Some(d),
+            None => {
+                report.inconclusive(&format!("output leg: reference cannot read divisor {:?}", p.divisor));
+                return;
+            }
+        }
+    } else {
+        None
+    };
+    // the type the literal's value is compared in
+    let target = match p.context {
+        0 | 1 => p.ty,
+        2 => match common_type(p.ty, src) {
+            Some(t) => t,
+            None => {
+                report.count("output:skipped:no_common_type_rule");
+                return;
+            }
+        },
+        _ => match (common_type(p.ty, src), divisor.and_then(|d| common_type(p.ty, d))) {
+            // both operands are literals: compare each in the declared type when that is where they end up, otherwise skip
+            (Some(a), Some(b)) if a == b => a,
+            _ => {
+                report.count("output:skipped:no_common_type_rule");
+                return;
+            }
+        },
+    };
+    if avoid_known {
+        let big_u = matches!(l, Lit::Int { suffix: IntSuffix::U, value, .. } if value > u32::MAX as u128);
+        if big_u {
+            report.count("output:avoided:u_suffix_above_32_bits(KF-C10-2)");
+            return;
+        }
+    }
+    let text = p.text();
+    let witness = || p.to_json();
+    report.evaluations += 1;
+    let outcome = rs::compile_text(&text, &Opts::new(Tgt::Dx, Mode::NoPipeline));
+    let key = format!("output:ctx{}:{}:{}", p.context, p.ty.name(), literal_class(&l));
+    let source = match &outcome {
+        Outcome::Ok(pipes) if pipes.len() == 1 => pipes[0].source.clone(),
+        Outcome::Ok(p) => {
+            report.count(&format!("output:skipped:{}_pipelines", p.len()));
+            return;
+        }
+        Outcome::Diag(d) => {
+            report.count(&format!("output:skipped:rejected:{}", d.lines().next().unwrap_or("").splitn(4, ':').last().unwrap_or("").trim()));
+            return;
+        }
+        Outcome::Panic(c) => {
+            // the compiler panicking on a literal is C08's business (64 bit suffixes are unimplemented, -2147483648 overflows)
+            report.count(&format!("output:skipped:panic:{}", c.signature()));
+            return;
+        }
+        Outcome::Budget { .. } => {
+            report.count("output:skipped:budget");
+            return;
+        }
+    };
+    let marker = match p.context {
+        0 | 3 => "c10_v = ",
+        1 => "return ",
+        _ => " * ",
+    };
+    let Some(expr) = after_marker(&source, marker) else {
+        report.count("output:skipped:marker_not_found");
+        return;
+    };
+    let mut reader = Reader { s: expr, pos: 0 };
+    let mut leaves = Vec::new();
+    let mut expected: Vec<Val> = vec![src];
+    // (what the output denotes, the type it is compared in)
+    let mut operands: Vec<(Result<Val, ReadError>, Option<Ty>)> = Vec::new();
+    if p.context == 3 {
+        expected.push(divisor.unwrap());
+        match reader.division_leaves() {
+            Ok(l) if l.len() == 2 => {
+                for (_, v) in &l {
+                    // each operand is compared in the type the output gives it; operands left untyped are compared exactly
+                    let ty = match v {
+                        Val::F32(_) => Some(Ty::Float),
+                        Val::F16(_) => Some(Ty::Half),
+                        Val::F64(_) | Val::LitFloat(_) => Some(Ty::Double),
+                        Val::U32(_) => Some(Ty::Uint),
+                        Val::I32(_) => Some(Ty::Int),
+                        _ => None,
+                    };
+                    operands.push((Ok(*v), ty));
+                }
+                leaves = l;
+            }
+            Ok(_) => {
+                report.count("output:skipped:division_folded_or_reshaped");
+                return;
+            }
+            Err(e) => operands.push((Err(e), None)),
+        }
+    } else {
+        let got = reader.unary(&mut leaves);
+        if p.context != 2 && got.is_ok() && reader.rest() != ";" {
+            report.count("output:skipped:unrecognised_expression_shape");
+            return;
+        }
+        operands.push((got, Some(target)));
+    }
+    for (want_src, (got, compare_in)) in expected.iter().zip(operands.into_iter()) {
+        let got = match got {
+            Ok(v) => v,
+            Err(ReadError::IntegerSpelledFloat(t, suffix)) => {
+                report.violation(
+                    &format!("output:floating-constant-printed-as-integer-spelling:{}", suffix),
+                    &format!("{:?} compiles to {:?}: `{}` is digits with an {} suffix, not a floating literal", text.trim(), expr, t, suffix),
+                    witness().set("output", source.as_str()),
+                );
+                return;
+            }
+            Err(ReadError::Undefined) => {
+                report.count("undecided:conversion_undefined_in_the_language");
+                return;
+            }
+            Err(ReadError::Unrecognised(why)) => {
+                report.count("output:skipped:unrecognised_expression");
+                let _ = why;
+                return;
+            }
+        };
+        // a floating constant printed as an l / L suffixed integer literal denotes a 64 bit integer: `1.0L / 3.0L` becomes `1L / 3L`
+        if as_real(*want_src).is_some() {
+            if let Some((t, _)) = leaves.iter().find(|(_, v)| matches!(v, Val::I64(_) | Val::U64(_))) {
+                report.violation(
+                    "output:floating-constant-printed-as-integer-spelling:L",
+                    &format!("{:?} compiles to {:?}: `{}` is an integer literal of 64 bit type, not a floating literal", text.trim(), expr, t),
+                    witness().set("output", source.as_str()),
+                );
+                return;
+            }
+        }
+        let (want, seen) = match compare_in {
+            Some(t) => (convert(*want_src, t), convert(got, t)),
+            // untyped integer literals on both sides: exact comparison
+            None => (Conv::Exact(*want_src), Conv::Exact(got)),
+        };
+        let target = compare_in.unwrap_or(target);
+        match (want, seen) {
+            (Conv::Exact(w), Conv::Exact(s)) | (Conv::Exact(w), Conv::Wrapped(s)) => {
+                let zero_negated = p.negate;
+                if !values_equal(w, s, false) {
+                    if zero_negated && values_equal(w, s, true) {
+                        // -0.0 is an expression, not a literal: the sign of a negated zero is C01's business
+                        report.count("observed:negated_zero_printed_without_sign");
+                    } else {
+                        let sig = if matches!(l, Lit::Int { suffix: IntSuffix::U, value, .. } if value > u32::MAX as u128) {
+                            "output:u-suffixed-literal-truncated-to-32-bits".to_string()
+                        } else {
+                            format!("output:value-changed:{}:{}", literal_class(&l), target.name())
+                        };
+                        report.violation(
+                            &sig,
+                            &format!("{:?} compiles to {:?}: the literal denotes {} as {} but the output denotes {}", text.trim(), expr, describe_val(w), target.name(), describe_val(s)),
+                            witness().set("output", source.as_str()).set("want", describe_val(w)).set("seen", describe_val(s)),
+                        );
+                        return;
+                    }
+                }
+            }
+            (Conv::Wrapped(w), Conv::Exact(s)) | (Conv::Wrapped(w), Conv::Wrapped(s)) => {
+                if values_equal(w, s, true) {
+                    report.count("output:out_of_range_signed_conversion_wrapped_as_assumed");
+                } else {
+                    report.count("undecided:out_of_range_signed_conversion");
+                    return;
+                }
+            }
+            _ => {
+                report.count("undecided:conversion_undefined_in_the_language");
+                return;
+            }
+        }
+    }
+    report.count(&key);
+    report.count("output:value_unchanged");
+    report.distinct(hash_str(&text));
+    if p.spelling.len() > 8 && p.context >= 2 && report.samples.iter().filter(|s| s.get_str("kind") == Some("program")).count() < 2 {
+        report.sample(witness().set("output_expression", expr));
+    }
+}
+
+fn generate_program(rng: &mut Rng) -> Program {
+    let context = [0u8, 0, 1, 1, 2, 2, 3][rng.below(7)];
+    let ty = *rng.pick(&ALL_TYS);
+    let is_int_lit = rng.chance(3, 10);
+    let spelling = if is_int_lit {
+        loop {
+            let (s, v) = random_int_spelling(rng, false);
+            // 64 bit suffixes reach an unimplemented!() in the type checker: keep a few to see that, not more
+            let long = s.ends_with(|c| c == 'l' || c == 'L') || s.to_lowercase().ends_with("lu");
+            if v > u64::MAX as u128 || (long && !rng.chance(1, 20)) {
+                continue;
+            }
+            break s;
+        }
+    } else if rng.chance(1, 25) {
+        format!("1.{}#INF{}", if rng.chance(1, 2) { "0" } else { "" }, *rng.pick(&["", "f", "h", "L"]))
+    } else {
+        random_float_spelling(rng)
+    };
+    // float literals into integer types are only a side show
+    let ty = if !is_int_lit && !ty.is_float() && rng.chance(2, 3) { Ty::Float } else { ty };
+    let negate = context < 2 && rng.chance(1, 7);
+    let divisor = if context == 3 {
+        if is_int_lit {
+            "3".to_string()
+        } else {
+            // same suffix as the literal so that both operands have one type
+            let suffix = match lit::read_literal(&spelling) {
+                Ok((Lit::Float { suffix: FloatSuffix::F, .. }, _)) => "f",
+                Ok((Lit::Float { suffix: FloatSuffix::H, .. }, _)) => "h",
+                Ok((Lit::Float { suffix: FloatSuffix::L, .. }, _)) => "L",
+                _ => "",
+            };
+            format!("0.75{}", suffix)
+        }
+    } else {
+        String::new()
+    };
+    Program { context, ty, spelling, negate, divisor }
+}
+
+// ------------------------------------------------------------------------------------------------
+// Workload
+// ------------------------------------------------------------------------------------------------
+
+/// Spellings every run examines: the constants the property names, and the edges of the ranges
+const DIRECTED_LITERALS: &[&str] = &[
+    "0.0031308", "0.055", "0.0031308f", "0.055f", "0.055h", "0.055L", "18446744073709551615", "18446744073709551616", "18446744073709551616u", "18446744073709551615UL",
+    "0xFFFFFFFFFFFFFFFF", "0x10000000000000000", "01777777777777777777777", "02000000000000000000000", "9223372036854775807l", "4294967296u", "0", "00", "0u", "1.#INF",
+    "1.0#INFf", "1e+0000000000000000000000005", "1e-0000000000000000000000005f", "1.7976931348623159e308", "2.4703282292062327e-324", "16777217.000000001f", "0x0000000000000000000000001",
+    "9999999999999999999999999", "0xfffffffffffffffffffffffff", "07777777777777777777777777", "1e5000", "1e-5000", "0e99999", "3.4028235677973366e38f", "1.", "5.e3", "1E2L",
+];
+
+fn run(ctx: &Ctx) -> Report {
+    let n = ctx.tier.pick(640_000, 8_000_000);
+    let seed = ctx.seed;
+    let mut report = Report::new();
+    for s in DIRECTED_LITERALS {
+        for (b, a) in [("", ""), ("x = ", ";"), ("(", ".x")] {
+            examine_literal(b, s, a, &mut report);
+        }
+        report.count("directed_literals");
+    }
+    let random = par::run_cases(ctx, n, |index, report| {
+        let mut rng = Rng::for_case(seed, 0xC10, index);
+        match index % 16 {
+            0 => {
+                let g = generate_text(&mut rng);
+                report.count(&format!("text:eol_style:{}", ["lf", "crlf", "mixed"][g.eol_style as usize]));
+                report.count_n("text:splices", g.splices as u64);
+                report.count(if g.unlex_model.is_some() { "text:well_formed" } else { "text:with_malformed_piece" });
+                report.max("max:text_bytes", g.text.len() as u64);
+                if g.text.len() < 400 && g.splices > 0 && !report.samples.iter().any(|s| s.get_str("kind") == Some("text")) {
+                    report.sample(text_witness(&g.text, &g.pre_files, &None));
+                }
+                examine_text(&g.text, &g.pre_files, &g.unlex_model, report);
+            }
+            1 => {
+                let p = generate_program(&mut rng);
+                examine_program(&p, true, report);
+            }
+            _ => {
+                let spelling = if rng.chance(2, 5) { random_int_spelling(&mut rng, true).0 } else { random_float_spelling(&mut rng) };
+                let before = *rng.pick(BEFORE);
+                let after = *rng.pick(AFTER);
+                examine_literal(before, &spelling, after, report);
+            }
+        }
+    });
+    report.merge(random);
+    // every lexable clean text must have been lexed: a generator that produces unlexable "clean" texts has lost its power
+    let unexpected: u64 = report.counters.iter().filter(|(k, _)| k.starts_with("skipped:unexpected_lex_error")).map(|(_, v)| *v).sum();
+    let clean = report.counters.get("text:well_formed").copied().unwrap_or(0);
+    if unexpected * 50 > clean.max(1) {
+        report.inconclusive(&format!("{} of {} texts meant to be lexable were rejected by the lexer", unexpected, clean));
+    }
+    let unchanged = report.counters.get("output:value_unchanged").copied().unwrap_or(0);
+    if unchanged < ctx.tier.pick(8_000, 100_000) {
+        report.inconclusive(&format!("output leg reached a verdict on only {} programs", unchanged));
+    }
+    report
+}
+
+fn strs(j: &Json, key: &str) -> Vec<String> {
+    j.get(key).and_then(|a| a.as_arr()).map(|a| a.iter().filter_map(|s| s.as_str().map(|s| s.to_string())).collect()).unwrap_or_default()
+}
+
+/// Run `f` on another thread and wait at most `secs` seconds for it (a literal with an astronomically large exponent must not hang the driver)
+fn with_timeout(secs: u64, f: impl FnOnce() -> Report + Send + 'static) -> Option<Report> {
+    let (tx, rx) = std::sync::mpsc::channel();
+    let _ = std::thread::Builder::new().stack_size(64 << 20).spawn(move || {
+        let _ = tx.send(f());
+    });
+    rx.recv_timeout(std::time::Duration::from_secs(secs)).ok()
+}
+
+fn replay(_ctx: &Ctx, witness: &Json) -> Report {
+    let mut report = Report::new();
+    match witness.get_str("kind").unwrap_or("") {
+        "text" => {
+            let text = witness.get_str("text").unwrap_or("").to_string();
+            let pre = strs(witness, "pre_files");
+            let model = witness.get_str("unlex_model").map(|s| s.to_string());
+            examine_text(&text, &pre, &model, &mut report);
+        }
+        "literal" => {
+            let b = witness.get_str("before").unwrap_or("").to_string();
+            let s = witness.get_str("spelling").unwrap_or("").to_string();
+            let a = witness.get_str("after").unwrap_or("").to_string();
+            let shown = s.clone();
+            match with_timeout(30, move || {
+                let mut r = Report::new();
+                examine_literal(&b, &s, &a, &mut r);
+                r
+            }) {
+                Some(r) => report.merge(r),
+                None => report.inconclusive(&format!("lexing {:?} did not finish within 30 s (non-termination is C08's business; nothing observed for C10)", shown)),
+            }
+        }
+        "program" => match Program::from_json(witness) {
+            Some(p) => examine_program(&p, false, &mut report),
+            None => report.inconclusive("program witness is missing fields"),
+        },
+        other => report.inconclusive(&format!("unknown witness kind {:?}", other)),
+    }
+    report
+}
